@@ -462,3 +462,14 @@ Print Assumptions C19_reexp_C07_alloc_size_exact_below.
 Theorem C19_reexp_C07_alloc_size_wrap_refuted : ltac:(let t := type of Centro.Props.C07.C07_alloc_size_wrap_refuted in exact t).
 Proof. exact Centro.Props.C07.C07_alloc_size_wrap_refuted. Qed.
 Print Assumptions C19_reexp_C07_alloc_size_wrap_refuted.
+
+(* ================================================================== round 7 (known finding F36) *)
+(* Full: kernel_pre_hull is FALSE on every index list that lists a label twice, in particular on the lists
+   that repeat the largest label — the calls on which the compiled kernel reads labels_ijv[pixidx, 2] one
+   row past the sorted buffer (F36: convex_hull(labels, [2, 2]); result depends on the garbage read, one
+   run died with SIGSEGV).  C19_convex_hull_write_bound therefore never covered them; the defect is inside
+   "every input accepted by the Python-level API" and is observed by the ASan / crash stream. *)
+Theorem C19_hull_pre_rejects_repeated_max : forall ijv (l : Z) pre mid post,
+  PreC19.kernel_pre_hull ijv (pre ++ l :: mid ++ l :: post) = false.
+Proof. exact HullC19Safe.hull_pre_rejects_repeated_label. Qed.
+Print Assumptions C19_hull_pre_rejects_repeated_max.
